@@ -26,6 +26,8 @@ def norm_frame(f):
     if f is None:
         return None
     f = f.strip("_")
+    if f.endswith("_frame") and len(f) > 6:
+        f = f[:-6]                       # points_in_box_frame: the frame is `box`
     return "origin" if f in ("world", "origin") else f
 
 
@@ -202,7 +204,21 @@ class Frames:
             return None
         self._busy.add(key)
         rets = []
-        self._body(f.node.body, env, f, rets, record=record)
+        # a helper written for a generic frame (`shape2origin`, `points_in_shape`) is analysed per call site: the frame symbols of its parameter
+        # names are variables, bound here to the frames of the actual arguments (shape := ellipsoid)
+        bind = {}
+        for p_ in f.params():
+            pf_, v_ = pose_frames(p_), env.get(p_)
+            if pf_ and v_ is not None and getattr(v_, "kind", None) == "pose" and v_.a is not None and v_.b is not None:
+                for sym, act in zip(pf_, (v_.a, v_.b)):
+                    if sym != act and sym not in ("origin",):
+                        bind[sym] = act
+        self._bindings = getattr(self, "_bindings", [])
+        self._bindings.append(bind)
+        try:
+            self._body(f.node.body, env, f, rets, record=record)
+        finally:
+            self._bindings.pop()
         self._busy.discard(key)
         out = None
         for r in rets:
@@ -299,7 +315,9 @@ class Frames:
 
     def _assign(self, t, v, env, f, st, sink, record):
         if isinstance(t, ast.Name):
+            bind = (getattr(self, "_bindings", None) or [{}])[-1]
             declared = in_frame(t.id)
+            declared = bind.get(declared, declared)
             if declared and v is not None and v.kind in ("vec", "wrench") and v.a is not None and v.a != declared:
                 if record:
                     extra = ""
@@ -309,6 +327,8 @@ class Frames:
                     self._conflict(f, st, "`%s` is named as a quantity in frame `%s` but the assigned value is expressed in frame `%s`%s" % (t.id, declared, v.a, extra))
                 v = FV(v.kind, declared)    # trust the name downstream: report the root cause once
             pf = pose_frames(t.id)
+            if pf:
+                pf = (bind.get(pf[0], pf[0]), bind.get(pf[1], pf[1]))
             if pf and v is not None and v.kind == "pose" and (v.a, v.b) != pf and v.a is not None and v.b is not None and record:
                 self._conflict(f, st, "`%s` is named as the transform %s->%s but the assigned value is %r" % (t.id, pf[0], pf[1], v))
             if pf and (v is None or v.kind in ("free",)):
